@@ -15,13 +15,14 @@ WT=/tmp/sc-$PROP-$$
 git -C /repo worktree add -q --detach $WT HEAD || exit 2
 # hook files that are not committed yet
 (cd /repo && git ls-files --others --exclude-standard | grep verif_hooks | while read f; do mkdir -p $WT/$(dirname $f); cp $f $WT/$f; done)
-DEMOFILE=$(ls $D | grep -v -e patch.diff -e meta.json | head -1)
-mkdir -p $WT/$(dirname $DEMO_PATH); cp $D/$DEMOFILE $WT/$DEMO_PATH
+mkdir -p $WT/$(dirname $DEMO_PATH)
+DEMOS=""
+for f in $(ls $D | grep -v -e patch.diff -e meta.json); do cp $D/$f $WT/$(dirname $DEMO_PATH)/$f; DEMOS="$DEMOS $WT/$(dirname $DEMO_PATH)/$f"; done
 cd $WT
 echo "== demo on unchanged tree (must pass): $DEMO_RUN"; ( eval "$DEMO_RUN" ) >/tmp/sc-$$.log 2>&1; A=$?; tail -3 /tmp/sc-$$.log
 git apply $D/patch.diff || { echo "PATCH DOES NOT APPLY"; cd /; git -C /repo worktree remove --force $WT; exit 2; }
 echo "== demo with change (must fail)"; ( eval "$DEMO_RUN" ) >/tmp/sc-$$.log 2>&1; B=$?; tail -5 /tmp/sc-$$.log
-rm -f $WT/$DEMO_PATH
+rm -f $DEMOS
 echo "== existing tests of touched packages with change (must pass): $PKGS"; go1.26.8 test -count=1 -timeout 900s $PKGS >/tmp/sc-$$.log 2>&1; C=$?; tail -4 /tmp/sc-$$.log
 echo "== our check against the change (must exit 1)"; (cd /verif && VF_REPO=$WT ./vf check $PROP ${2:-} 2>&1 | tail -4); E=${PIPESTATUS[0]}
 cd /; git -C /repo worktree remove --force $WT; rm -f /tmp/sc-$$.log
